@@ -278,8 +278,11 @@ class Ctx:
             "wall_s": round(self.wall, 2),
             "violations": n_viol,
         }
-        os.makedirs(os.path.join(VERIF, "evidence"), exist_ok=True)
-        with open(os.path.join(VERIF, "evidence", self.pid + ".json"), "w") as f:
+        # development runs against another checkout (VERIF_REPO: a scratch worktree with a seeded change)
+        # must not overwrite the evidence of /repo
+        evdir = os.path.join(VERIF, "evidence") if os.path.realpath(REPO) == "/repo" else os.path.join(VERIF, "out", "evidence_dev")
+        os.makedirs(evdir, exist_ok=True)
+        with open(os.path.join(evdir, self.pid + ".json"), "w") as f:
             json.dump(ev, f, indent=1, default=str)
 
 
